@@ -4,6 +4,8 @@
 //! Consider adding this in your [build-dependencies](https://doc.rust-lang.org/cargo/reference/specifying-dependencies.html#build-dependencies) section instead.
 
 #![deny(missing_docs)]
+// Verification hook (see /verif/DESIGN.md): only `cargo kani` sets cfg(kani)
+#![cfg_attr(kani, feature(allocator_api))]
 
 pub use crate::generators::ascii7::Ascii7Gen;
 pub use crate::generators::backward_compatible::BackwardCompatibleGen;
